@@ -765,6 +765,54 @@ func TestVerifRequestLoop(t *testing.T) {
 		}()
 	}
 
+	// ---- W10: the region is replaced in the cache (CacheRegions finds the daughters of a split) while its establisher waits
+	// for the answer to its probe. The establisher goes on to the end of its pass (the answer, when it comes, is "not
+	// serving"), notices that the region is dead and releases the waiters; nothing panics, nobody is stranded.
+	for _, q := range []int{1, 3} {
+		verifsim.Bubble(t, func(t *testing.T) {
+			name := fmt.Sprintf("W10/region-replaced-in-the-cache-while-its-probe-is-outstanding/q=%d", q)
+			e := newRLEnv(q, 1, "rs1")
+			parent := e.cl.OnlineRegions("t")[0]
+			e.goGet("a")
+			time.Sleep(time.Second)
+			synctest.Wait()
+			hold := make(chan struct{})
+			var held atomic.Bool
+			e.cl.Lock()
+			e.cl.Rules = append(e.cl.Rules, func(_ *verifsim.Cluster, rs *verifsim.RS, sc *verifsim.ServerConn, req *verifsim.Request, rn []byte) *verifsim.Directive {
+				if verifsim.IsProbe(req) && string(rn) == string(parent.Name) && held.CompareAndSwap(false, true) {
+					return &verifsim.Directive{Hold: hold}
+				}
+				return nil
+			})
+			e.cl.Unlock()
+			e.cl.Flap(parent, verifsim.ExcNotServing, 1)
+			e.goGet("a") // "not serving": the region is marked, its establisher probes - the answer is held back
+			e.goGet("n")
+			time.Sleep(time.Second)
+			synctest.Wait()
+			if !held.Load() {
+				rep.bad("harness:w10", "%s: the establisher's probe was not seen", name)
+			}
+			e.cl.Split(parent, []byte("m"), "rs1", "rs2")
+			crDone := make(chan struct{})
+			go func() { e.c.CacheRegions([]byte("t")); close(crDone) }()
+			time.Sleep(time.Second)
+			synctest.Wait()
+			close(hold)
+			time.Sleep(time.Second)
+			synctest.Wait()
+			e.goGet("b")
+			e.goPut("p")
+			finish(e, name)
+			select {
+			case <-crDone:
+			default:
+				rep.bad("request-stranded", "%s: CacheRegions never returned", name)
+			}
+		})
+	}
+
 	// ---- W9: a region in transition - for a while hbase:meta has no row for it (and nobody serves it). Requests for its keys,
 	// the first of which is the key EQUAL to the stop key of the region in front of it, wait for the region to come back and
 	// then succeed; none of them comes back with an error of the client's making (a request sent to the neighbour is
